@@ -357,6 +357,7 @@ def sod_relations(chk, w0, scalar, gammas):
         # the root p_m is a root of func AS func EVALUATES IN THE STATE OF THIS CALL SITE (the members it reads -- c_l, c_r, p_l, ... -- are
         # whatever the calling evaluator has stored so far): the function is executed here on the symbol p_m and its term recorded
         e.st.event('rtbis-func', e.call(fc, [args[0], PM]))
+        e.st.event('rtbis-args', tuple(args[1:5]))
         return PM
     ex.opaque[rt] = rt_summary
     try:
@@ -408,6 +409,19 @@ def sod_relations(chk, w0, scalar, gammas):
                         seen_.add(ev_[1].id)
                         chk.identity('%s:%s:func-at-the-rtbis-call-site#%d=(v_shock-v_rarefaction)/c_r' % (tag, what_, len(seen_)), S_(ev_[1]), (vshock - vm) / cr, A,
                                      key='sod:func:%s' % what_, family=fam, witnesses=False, replay=rp_)
+            # the iteration cap passed at this call site lets the bracket [p_r, p_l] shrink below the tolerance passed with it (in this scalar type)
+            short_ = []
+            for p_ in paths_:
+                for ev_ in p_['st'].events:
+                    if ev_[0] == 'rtbis-args':
+                        a_ = [x_.p if isinstance(x_, T) and tm.isc(x_) else x_ for x_ in ev_[1]]
+                        if all(isinstance(x_, (int, Fraction)) for x_ in a_):
+                            if a_[2] > 0 and abs(Fraction(a_[1]) - Fraction(a_[0])) / Fraction(2) ** int(a_[3]) >= a_[2]:
+                                short_.append([float(x_) for x_ in a_])
+                        else:
+                            short_.append(['symbolic arguments'])
+            chk.paths_clean('%s:%s:bisection-cap-reaches-the-tolerance' % (tag, what_), [tm.TRUE] if short_ else [], key='sod:cap:%s' % what_, family=fam,
+                            sample=dict(obligation='rtbis(x1,x2,xacc,JMAX) at the call site', insufficient=short_[:2]), replay=rp_)
             chk.paths_clean('%s:%s:root-finder-called-with-func-in-a-known-state' % (tag, what_), [] if seen_ else [tm.TRUE], key='sod:func-site:%s' % what_, family=fam, replay=rp_)
         # B. Rankine-Hugoniot with V the shock-side velocity: V^2 given, v_s = V/(1-rho_r/rho_mr)
         V = tm.sym('V_shock')
